@@ -189,7 +189,9 @@ def apply_models(record_rechunk=True):
         b = bind_by_position(ev, "grid_ufunc:_rechunk_to_merge_in_boundary_chunks", ["padded_args", "original_args", "boundary_width_real_axes", "grid"], args, kw)
         ev.events.append(("rechunk", b, node))
         pa = b.get("padded_args")
-        return [p.with_eff(("RECHUNK",)) if isinstance(p, Obj) else p for p in pa] if isinstance(pa, list) else TOP
+        if isinstance(pa, Obj):  # a tree whose helper merges the boundary chunks of one padded array at a time
+            return pa.with_eff(("RECHUNK",))
+        return [p.with_eff(("RECHUNK",)) if isinstance(p, Obj) else p for p in pa] if isinstance(pa, (list, tuple)) else TOP
 
     m["grid_ufunc:_map_func_over_core_dims"] = m_map
     if record_rechunk:
